@@ -909,7 +909,7 @@ class AtomGrid(Grid):
             actual_degrees.append(sphere_grid.degree)
 
             # check rotate value and randomly rotate angular grid points
-            if not isinstance(rotate, int):
+            if not isinstance(rotate, (int, np.integer)):
                 raise ValueError(f"Argument rotate should be an integer, got {rotate}")
             if rotate != 0:
                 rot_mt = R.random(random_state=rotate + i).as_matrix()
